@@ -99,6 +99,24 @@ def run(ctx):
     rec = [n for n in m.walk() if n["k"] == "CXXOperatorCallExpr" and n.get("op") == "+=" and callee(n) == J + "operator+="]
     asg = [n for n in m.walk() if n["k"] == "CXXOperatorCallExpr" and n.get("op") == "=" and callee(n) == J + "operator="]
     R.ob("C25-R4", len(rec) == 1, m.q, "merge:one recursive +=", "%s:%d" % (m.relfile, m.d["line"]), "%d recursive merges" % len(rec))
+    # every key of the right-hand side ends up in the destination: each pass through the loop body performs the recursive merge or an assignment
+    loops_ = [n for n in m.walk() if n["k"] in ("WhileStmt", "ForStmt", "CXXForRangeStmt") and not n.get("mac")]
+    if len(loops_) != 1:
+        raise AnalysisBroken("mergeWithObject: expected one loop over the right-hand side")
+    body_ = kids(loops_[0])[-1]
+    first_ = cfg.position(body_)
+    cond_ = kids(loops_[0])[0] if loops_[0]["k"] == "WhileStmt" else None
+    evs_ = {n["i"] for n in rec + asg}
+    back = cfg.position(cond_) if cond_ is not None else None
+    pskip = None
+    if first_ is not None and back is not None:
+        tgt_block = back[0]
+        pskip = cfg.find_path((first_[0], first_[1] - 1), lambda b, i, e: b == tgt_block, lambda b, i, e: isinstance(e, int) and e in evs_)
+        if pskip is None:
+            pskip = cfg.find_path((first_[0], first_[1] - 1), "exit", lambda b, i, e: (isinstance(e, int) and e in evs_) or b == tgt_block)
+    R.ob("C25-R4", pskip is None and first_ is not None, m.q, "merge:no key of the right-hand side is skipped", m.site(loops_[0]),
+         "every iteration merges recursively or assigns" if pskip is None else
+         "an iteration can finish without the recursive merge and without an assignment: the right-hand side does not win for that key (e.g. an empty object over a number leaves the number)", path=pskip)
     for n in rec:
         fs = cfg.facts_at(n, IN)
         objs = [k for (k, pol) in fs if pol and "isObject()" in k]
